@@ -1,6 +1,7 @@
 import HqModel.Base.Proto
 import HqModel.Core.Run
 import HqModel.Lemmas.CoreInvResStep
+import Driver.CoreNpLib
 /-! Driver of the tako core model (component `core`), see /verif/FRAMEWORK.md and harness/src/coreview.rs. -/
 open HqModel HqModel.Proto HqModel.Core
 
@@ -185,7 +186,7 @@ def runOps (s : State) (seen : List TaskId) (rets : List (List TaskId)) : List (
     | none => none
     | some (op, rets1) =>
       let (seen1, m2) := reuseFails seen op
-      let mons := mons ++ hypFails s op ++ m2
+      let mons := mons ++ hypFails s op ++ m2 ++ npMons s seen op
       match Core.step s op with
       | .error e => some (.error e, seen1, mons)
       | .ok (s1, o) => runOps s1 seen1 rets1 rest (out.add o) mons
